@@ -37,6 +37,14 @@ func runC06(env *Env, tier string) {
 	if ch.Chance("checklatencyoff", 1, 5) {
 		c.CheckLatencyOff = true
 	}
+	if c.DataDict == "" && c.AppDD == "" && ch.Chance("fieldorderoff", 1, 5) {
+		// one of the two dictionary-less field checks is configured off; the other one (empty values) stays
+		if c.Extra == nil {
+			c.Extra = map[string]string{}
+		}
+		c.Extra["ValidateFieldsOutOfOrder"] = "N"
+		env.Stat("probe_field_order_check_off")
+	}
 	s := StartSut(env, c)
 	p := s.P
 	a := NewAdv(s, hb, AdvOpts{HonestLogon: true})
@@ -164,6 +172,16 @@ func runC06(env *Env, tier string) {
 		switch mt {
 		case "D":
 			body = AppBody(id)
+			if ch.Chance("bodyvalueempty", 1, 8) {
+				// a body field without a value: "Tag specified without a value", a plain Reject naming it
+				for k := range body {
+					if body[k].Tag == 55 {
+						body[k].Val = ""
+					}
+				}
+				defects = append(defects, c06Defect{"body-value-empty", "plain", 55})
+				env.Stat("probe_body_field_without_value")
+			}
 		case "1":
 			body = []wire.Field{wire.F(112, id)}
 		case "2":
